@@ -30,7 +30,7 @@ def run_tlc(module, cfg, env=None, workers=1, timeout=1800, heap='3g', simulate=
         os.write(fd, cfg.encode())
         os.close(fd)
         cfg_path = tmp_cfg
-    cmd = ['java', '-XX:+UseParallelGC', '-Xmx' + heap, '-Xss64m']
+    cmd = ['java', '-XX:+UseParallelGC', '-XX:ParallelGCThreads=2', '-XX:CICompilerCount=2', '-Xmx' + heap, '-Xss64m']
     if deque:
         cmd.append('-Dtlc2.tool.queue.IStateQueue=StateDeque')
     cmd += ['-cp', JARS, 'tlc2.TLC', '-metadir', meta, '-noGenerateSpecTE', '-deadlock',
